@@ -459,8 +459,8 @@ func (runInfo *runInfoStruct) invokeItemExpr(expr *ast.ItemExpr) {
 		if item.Kind() != reflect.String {
 			runInfo.rv = item.Index(index)
 		} else {
-			// String
-			runInfo.rv = item.Index(index).Convert(stringType)
+			// String: the addressed byte (converting the byte would read it as a code point)
+			runInfo.rv = item.Slice(index, index+1).Convert(stringType)
 		}
 	case reflect.Map:
 		runInfo.rv = getMapIndex(runInfo.rv, item)
